@@ -151,7 +151,7 @@ func (rn *runner) runInput(in Input, name string) {
 func Run(c *corr.Ctx) {
 	c.Rule("generated descriptions (1..4 medias x 1..3 formats over all 22 format types, valid parameters + every documented exclusion): Marshal -> Unmarshal -> compare the listed components, " +
 		"re-marshal/re-parse of every accepted description; SDP texts (repository test documents, marshalled descriptions, their mutations incl. truncation at every offset, quirk lines, random bytes): no panic; " +
-		"every text and description also goes to the Lean model (marshal text, parse result) and must agree")
+		"the selection table over every payload type x codec name x clock (thorough: all 256 payload types); every text and description also goes to the Lean model (marshal text, validity, document, parse result) and must agree")
 	rn := &runner{c: c, g: &gen{r: c.Rng, p: newPools(rand.New(rand.NewPCG(7, 7)))}}
 	if c.Replay != nil {
 		var in Input
@@ -243,6 +243,43 @@ func Run(c *corr.Ctx) {
 	} {
 		for _, x := range extremes {
 			rn.checkText([]byte(strings.Replace(tmpl, "§", x, 1)), "numeric-extreme", "extreme")
+		}
+	}
+	// the selection table, exhaustively: every payload type x every codec name of the table (and case
+	// variants, unknown names, no rtpmap) x typical clocks; quick tier: every 17th payload type + the borders
+	codecs := []string{"AV1", "VP9", "VP8", "H265", "H264", "MP4V-ES", "opus", "multiopus", "VORBIS", "mpeg4-generic", "MP4A-LATM", "AC3", "speex",
+		"G726-16", "G726-24", "G726-32", "G726-40", "AAL2-G726-16", "AAL2-G726-24", "AAL2-G726-32", "AAL2-G726-40", "G726-48", "PCMA", "PCMU", "L8", "L16", "L24", "L32",
+		"SMPTE336M", "JPEG", "MP2T", "G722", "MPA", "MPV", "h264", "Opus", "pcma", "vp8", "private", ""}
+	clocks := []string{"90000", "8000", "48000/2", "44100/2", "16000", "90000/1", ""}
+	fmtps := []string{"", "a=fmtp:%d config=1190; sizelength=13; configuration=AQID; cpresent=0", "a=fmtp:%d sprop-stereo=1; vbr=on; max-fr=1; profile-level-id=3"}
+	for pt := 0; pt < 256; pt++ {
+		if c.Quick() && pt%17 != 0 && pt != 35 && pt != 95 && pt != 96 && pt != 127 && pt != 128 && pt != 255 && pt > 34 {
+			continue
+		}
+		for _, codec := range codecs {
+			for ci, clock := range clocks {
+				if c.Quick() && ci > 2 && pt > 34 {
+					continue
+				}
+				for fi, fm := range fmtps {
+					if fi > 0 && (ci != 0 && ci != 2) {
+						continue
+					}
+					var sb strings.Builder
+					fmt.Fprintf(&sb, "v=0\r\ns=x\r\nm=%s 0 RTP/AVP %d\r\n", pick(c.Rng, []string{"video", "audio", "application"}), pt)
+					if codec != "" || clock != "" {
+						fmt.Fprintf(&sb, "a=rtpmap:%d %s", pt, codec)
+						if clock != "" {
+							sb.WriteString("/" + clock)
+						}
+						sb.WriteString("\r\n")
+					}
+					if fm != "" {
+						fmt.Fprintf(&sb, fm+"\r\n", pt)
+					}
+					rn.checkText([]byte(sb.String()), "selection-table", "select")
+				}
+			}
 		}
 	}
 	// random text
